@@ -92,6 +92,25 @@ example : (∀ a ∈ literals (Expr.node .and [.atom (.lic ⟨[109, 105, 116], f
   · exact ⟨⟨by decide, by decide⟩, rfl⟩
   · exact ⟨⟨⟨by decide, by decide⟩, rfl⟩, ⟨⟨by decide, by decide⟩, rfl⟩⟩
 
+/-- the premises of `C04_in_context` / `C02_text` are satisfiable: over ASCII, the table
+    {mit; GPL[exception] alias "gnu gpl"}, the text `MIT  with GNU   gpl` (the pair written with other
+    case and spacing, the exception through its alias) is a spelling of the skeleton `mit WITH GPL` -/
+example :
+    let T : Table := [⟨[109, 105, 116], [], false⟩, ⟨[71, 80, 76], [[103, 110, 117, 32, 103, 112, 108]], true⟩]
+    let text : Str := [77, 73, 84, 32, 32, 119, 105, 116, 104, 32, 71, 78, 85, 32, 32, 32, 103, 112, 108]
+    OpWordFree asciiCls T ∧ KwOwned asciiCls T ∧
+    ∃ segs, SegsFor asciiCls T [.sym (.withE ⟨[109, 105, 116], false⟩ ⟨[71, 80, 76], true⟩)] segs ∧
+      segPieces segs = wordPieces asciiCls text := by
+  intro T text
+  refine ⟨opWordFree_of_B _ _ (by decide), kwOwned_of_B _ _ (by decide), ?_⟩
+  refine ⟨[([⟨0, [77, 73, 84], .word⟩], some (.sym ⟨[109, 105, 116], false⟩)), ([⟨5, [119, 105, 116, 104], .word⟩], some (.kw .with)),
+    ([⟨10, [71, 78, 85], .word⟩, ⟨16, [103, 112, 108], .word⟩], some (.sym ⟨[71, 80, 76], true⟩))], ?_, by decide⟩
+  have h := SegsFor.cons (c := asciiCls) (T := T)
+    (SegFor.withE ⟨[109, 105, 116], false⟩ ⟨[71, 80, 76], true⟩ [⟨0, [77, 73, 84], .word⟩] ⟨5, [119, 105, 116, 104], .word⟩
+      [⟨10, [71, 78, 85], .word⟩, ⟨16, [103, 112, 108], .word⟩] (by decide) (by decide) (ownedV_of_B _ _ _ _ (by decide)) (by decide) (ownedV_of_B _ _ _ _ (by decide)))
+    SegsFor.nil
+  simpa using h
+
 /-- non-vacuity: `a OR (b OR c)` keeps its nesting through the skeleton -/
 example : BP.parse (BP.toksOf (fun _ => false) (Expr.node .or [.atom 1, .node .or [.atom 2, .atom 3]]))
     = .ok (Expr.node .or [.atom 1, .node .or [.atom 2, .atom 3]]) := by rfl
